@@ -3,4 +3,6 @@ From Common Require Import Bytes Outcome Drv.
 From C09 Require Import Model.
 Extraction "model.ml" drv_b2n drv_n2b drv_z_of_n drv_n_of_z drv_nat_of_n drv_n_of_nat
   enc_big dec_big go_append go_append_prefix compact_u32_encode compact_u32_decode compact_len
-  substrate_append not_extendable u32_max.
+  substrate_append not_extendable u32_max
+  dec_big_cur go_append_with go_append_cur dec_complete_on n_be_bytes
+  mem_read host_append spec_host_append st_get st_put span_ptr span_size prefix_grows.
